@@ -18,6 +18,9 @@ pub struct NCase {
     pub portable: bool,
     /// harmless setters placed before / around the defect
     pub decor: u8,
+    /// further variation (generated multi-parameter definitions)
+    #[serde(default)]
+    pub salt: u16,
 }
 
 pub const N_KINDS: u8 = 13;
@@ -352,6 +355,13 @@ impl NCase {
                     sig: "derive-accepts",
                 }
             }
+            _ if v >= 128 => {
+                // generated: 2..4 type parameters, each bounded in the attribute, skipped, both, or
+                // (at least one) neither; inline bounds make the definition compile were it not
+                // for the derive's own check, so only that check can reject it
+                let (neg, twin, ty) = bounds_gen(self.salt, v, d);
+                Programs { negative: derive_prog(&neg, &ty), twin: derive_prog(&twin, &ty), builder: false, what: "bounds attribute leaving one of several parameters unbound", sig: "derive-accepts" }
+            }
             _ => {
                 // a bounds attribute that leaves a non-skipped type parameter without a bound
                 let (neg, twin, ty) = match v % 7 {
@@ -380,6 +390,59 @@ impl NCase {
             }
         }
     }
+}
+
+/// (negative item, positive twin, instantiation) for a `bounds(..)` attribute over several parameters
+fn bounds_gen(salt: u16, v: u8, d: u8) -> (String, String, String) {
+    const NAMES: [&str; 4] = ["T", "U", "V", "W"];
+    let n = 2 + (salt % 3) as usize;
+    let offender = (salt / 3 % n as u16) as usize;
+    // role per parameter: 0 bounded, 1 skipped, 2 bounded and skipped, 3 neither (the defect)
+    let mut roles = vec![0u8; n];
+    let mut r = salt / 16;
+    for (i, role) in roles.iter_mut().enumerate() {
+        *role = if i == offender { 3 } else { (r % 4) as u8 };
+        r /= 4;
+    }
+    let item = |fix: bool| -> String {
+        let mut bounded: Vec<String> = vec![];
+        let mut skipped: Vec<&str> = vec![];
+        for (i, role) in roles.iter().enumerate() {
+            let role = if *role == 3 && fix { 0 } else { *role };
+            if role == 0 || role == 2 {
+                bounded.push(format!("{}: TypeInfo + 'static", NAMES[i]));
+            }
+            if role == 1 || role == 2 {
+                skipped.push(NAMES[i]);
+            }
+        }
+        if v % 2 == 1 {
+            bounded.reverse();
+        }
+        if v / 2 % 4 == 3 {
+            // a predicate on a compound type mentions the offender but does not bound it
+            bounded.push(format!("Vec<{}>: TypeInfo + 'static", NAMES[offender]));
+        }
+        let b = format!("bounds({})", bounded.join(", "));
+        let sk = if skipped.is_empty() { None } else { Some(format!("skip_type_params({})", skipped.join(", "))) };
+        let attrs = match (sk, d % 4) {
+            (None, _) => format!("#[scale_info({b})]"),
+            (Some(sk), 0) => format!("#[scale_info({b}, {sk})]"),
+            (Some(sk), 1) => format!("#[scale_info({sk}, {b})]"),
+            (Some(sk), 2) => format!("#[scale_info({b})]\n#[scale_info({sk})]"),
+            (Some(sk), _) => format!("#[scale_info({sk})]\n#[scale_info({b})]"),
+        };
+        let generics: Vec<String> = roles.iter().enumerate().map(|(i, role)| if *role == 1 || *role == 2 { format!("{}: 'static", NAMES[i]) } else { format!("{}: TypeInfo + 'static", NAMES[i]) }).collect();
+        let members: Vec<String> = roles.iter().enumerate().map(|(i, role)| if *role == 1 || *role == 2 { format!("core::marker::PhantomData<{}>", NAMES[i]) } else if d / 4 % 3 == 1 { format!("Vec<{}>", NAMES[i]) } else { NAMES[i].to_string() }).collect();
+        let body = match d / 16 % 3 {
+            0 => format!("pub struct X<{}> {{ {} }}", generics.join(", "), members.iter().enumerate().map(|(i, m)| format!("f{i}: {m}")).collect::<Vec<_>>().join(", ")),
+            1 => format!("pub struct X<{}>({});", generics.join(", "), members.join(", ")),
+            _ => format!("pub enum X<{}> {{ {} }}", generics.join(", "), members.iter().enumerate().map(|(i, m)| format!("V{i}({m})")).collect::<Vec<_>>().join(", ")),
+        };
+        format!("#[derive(TypeInfo)]\n{attrs}\n{body}")
+    };
+    let args: Vec<&str> = roles.iter().map(|role| if *role == 1 { "NoInfo" } else { "u8" }).collect();
+    (item(false), item(true), format!("X<{}>", args.join(", ")))
 }
 
 /// error classes that mean "the generated program has a typo", never the defect
@@ -425,5 +488,5 @@ pub fn negative_body(c: &NCase, obs: &mut Obs) -> Result<(), String> {
 }
 
 pub fn ncase() -> BoxedStrategy<NCase> {
-    (0u8..N_KINDS, any::<u8>(), any::<bool>(), any::<u8>()).prop_map(|(kind, variation, portable, decor)| NCase { kind, variation, portable, decor }).boxed()
+    (0u8..N_KINDS, any::<u8>(), any::<bool>(), any::<u8>(), any::<u16>()).prop_map(|(kind, variation, portable, decor, salt)| NCase { kind, variation, portable, decor, salt }).boxed()
 }
